@@ -379,6 +379,14 @@ MOTIFS['M39b_nested_recurrent_subgraphs_outer_only_input'] = spec([
     node(3, [('a', inp(1))], has_additional=True), node(4, [('a', inp(3)), ('b', inp(2))], is_rec=True, recur_k=1),
     node(5, [('a', rec(3, 4, 2))], is_rec=True, recur_k=1), node(6, [('a', rec(1, 5, 2))])])
 
+# the input node itself is the start node of a recurrent subgraph: on a restart it gets the caller's kwargs plus
+# additional_data — in a dict of its own, not in the caller's
+MOTIFS['M40_input_node_restarts_the_subgraph'] = spec([
+    node(0, has_additional=True), node(1, [('a', inp(0))], is_rec=True, recur_k=1), node(2, [('a', rec(0, 1, 2))])])
+MOTIFS['M40b_input_node_restarts_the_subgraph_default'] = spec([
+    node(0, has_additional=True), node(1, [('a', inp(0))]),
+    node(2, [('a', inp(1))], is_rec=True, recur_k=3, use_default=True), node(3, [('a', rec(0, 2, 2)), ('b', inp(1))])])
+
 
 def _with_cb(sp, cb):
     sp = dict(sp)
